@@ -69,6 +69,22 @@ fn framing_failure(p: &Packet, b: &[u8]) -> Option<(String, String)> {
     }
 }
 
+/// a `Write + Seek` sink that accepts at most `chunk` bytes per call and, when `interrupt` is set, fails
+/// every other call with `ErrorKind::Interrupted` (which `write_all` retries)
+struct SlowSink { inner: std::io::Cursor<Vec<u8>>, chunk: usize, interrupt: bool, tick: u64 }
+impl std::io::Write for SlowSink {
+    fn write(&mut self, buf: &[u8]) -> std::io::Result<usize> {
+        self.tick += 1;
+        if self.interrupt && self.tick % 2 == 0 { return Err(std::io::Error::new(std::io::ErrorKind::Interrupted, "interrupted")); }
+        let n = buf.len().min(self.chunk);
+        self.inner.write(&buf[..n])
+    }
+    fn flush(&mut self) -> std::io::Result<()> { Ok(()) }
+}
+impl std::io::Seek for SlowSink {
+    fn seek(&mut self, pos: std::io::SeekFrom) -> std::io::Result<u64> { self.inner.seek(pos) }
+}
+
 pub fn c04(tier: &str, seed: u64) -> Vec<Case> {
     let thorough = tier == "thorough";
     let mut r = Rng::new(seed);
@@ -87,6 +103,8 @@ pub fn c04(tier: &str, seed: u64) -> Vec<Case> {
             all.push((p, "ext-rcode-no-opt".to_string()));
         }
     }
+    // messages beyond 16 KiB with names on both sides of offset 16383 (framing of the vector entry points only)
+    for (k, (p, tag)) in boundary_packets(tier).into_iter().enumerate() { if thorough || k % 4 == 0 { all.push((p, tag)); } }
     for (i, (p, tag)) in all.into_iter().enumerate() {
         let plain = match p.build_bytes_vec() { Ok(b) => b, Err(_) => { v.push(Case::oracle_only().fail("build-failed", "plain".into())); continue; } };
         let comp = match p.build_bytes_vec_compressed() { Ok(b) => b, Err(_) => { v.push(Case::oracle_only().fail("build-failed", "compressed".into())); continue; } };
@@ -95,7 +113,47 @@ pub fn c04(tier: &str, seed: u64) -> Vec<Case> {
         for (b, how) in [(&plain, "plain"), (&comp, "comp")] {
             let mut c = Case::oracle_only().tag(&format!("framing-{}", how)).tag(&tag);
             if let Some((k, m)) = framing_failure(&p, b) { c = c.fail(&k, format!("{}: {}", how, m)); }
+            // "exactly those entries": every owner and every name inside RDATA, read by the independent
+            // decoder at the sites the walker finds, is the name of the packet's entry (the messages
+            // beyond 16 KiB, where a pointer can be wrong without disturbing the framing)
+            if tag.starts_with("boundary") {
+                if let Some(w) = walker::walk(b) {
+                    let entries: Vec<&walker::Entry> = w.sections.iter().flatten().collect();
+                    let recs: Vec<&ResourceRecord> = p.answers.iter().chain(p.name_servers.iter()).chain(p.additional_records.iter()).collect();
+                    if entries.len() == recs.len() {
+                        for (e, r) in entries.iter().zip(recs.iter()) {
+                            let want: Vec<Vec<u8>> = r.name.get_labels().iter().map(|l| l.as_bytes().to_vec()).collect();
+                            match walker::decode_name(b, e.off) { Some((got, _)) if got == want => {}, _ => { c = c.fail("entry-owner-differs", format!("{}: the owner name written at offset {} does not decode to the record's name", how, e.off)); break; } }
+                        }
+                    }
+                }
+                let bb = b.clone();
+                let reparsed = std::panic::catch_unwind(move || Packet::parse(&bb).ok().map(|q| text::packet(&q))).unwrap_or(None);
+                if reparsed.as_deref() != Some(&ptxt[..]) { c = c.fail("entries-differ", format!("{}: the message does not read back as the packet that was written", how)); }
+            }
             v.push(c);
+        }
+        // sinks that accept a few bytes per call or interrupt every other call (`write_all` retries): the
+        // stream must end up holding the same message, at stream offsets 0 and 3
+        if i % 4 == 0 {
+            for (chunk, interrupt, start) in [(3usize, false, 0usize), (1, false, 3), (7, true, 0), (2, true, 3)] {
+                for isc in [false, true] {
+                    let mut sink = SlowSink { inner: std::io::Cursor::new(vec![0xEE; start]), chunk, interrupt, tick: 0 };
+                    use std::io::{Seek, SeekFrom};
+                    sink.seek(SeekFrom::Start(start as u64)).unwrap();
+                    let pp = p.clone();
+                    watch("slow sink");
+                    let res = std::panic::catch_unwind(std::panic::AssertUnwindSafe(|| if isc { pp.write_compressed_to(&mut sink).is_ok() } else { pp.write_to(&mut sink).is_ok() }));
+                    let want = if isc { &comp } else { &plain };
+                    let mut c = Case::oracle_only().tag("writer:slow-sink");
+                    match res {
+                        Err(_) => { c = c.fail("writer-panic", "slow sink".into()); }
+                        Ok(false) => { c = c.fail("writer-refused", format!("a sink accepting {} byte(s) per call{} makes the {} writer fail", chunk, if interrupt { " and interrupting every other call" } else { "" }, if isc { "compressing" } else { "plain" })); }
+                        Ok(true) => { if sink.inner.get_ref()[start..] != want[..] { c = c.fail("writer-differs", format!("through a sink accepting {} byte(s) per call{} at stream offset {} the {} writer leaves other bytes than build_bytes_vec{}", chunk, if interrupt { " and interrupting every other call" } else { "" }, start, if isc { "compressing" } else { "plain" }, if isc { "_compressed" } else { "" })); } }
+                    }
+                    v.push(c);
+                }
+            }
         }
         if plain.len() > 1500 { continue; }
         // writer configurations
